@@ -197,11 +197,13 @@ def new_model_opt(cfg, scramble=0):
     return m, o
 
 
-def train_step(m, o, epoch, train, val):
+def train_step(m, o, epoch, train, val, salt=0):
+    """``salt`` makes a repeated attempt at an epoch (after a crash) produce different parameters,
+    as real training does; the metrics (hence the history) stay those of the case."""
     with torch.no_grad():
         m.tag.fill_(float(epoch))
     m.tag.grad = None
-    m.w.grad = torch.tensor([val + 1.0, float(epoch) - train])
+    m.w.grad = torch.tensor([val + 1.0 + 0.125 * salt, float(epoch) - train])
     o.step()
 
 
@@ -279,6 +281,7 @@ class Session:
         self.entries = list(entries)
         self.ctl = None
         self.model = self.opt = None
+        self.salt = 0
 
     def start(self, scramble=0):
         """What a training script does on start-up: build everything, load the last state."""
@@ -293,7 +296,7 @@ class Session:
 
     def epoch(self, train, val, /, **user):
         e = self.ctl.get_last_epoch() + 1
-        train_step(self.model, self.opt, e, train, val)
+        train_step(self.model, self.opt, e, train, val, self.salt)
         return self.ctl.update_for_epoch(self.model, self.opt, train, val, **user)
 
     def csv_bytes(self):
